@@ -240,6 +240,8 @@ def run(ctx, prop):
         "cycle-dot": ({"main.idl": 'include "./a.idl"\n', "a.idl": 'include "./d/b.idl"\nstruct A { uint8 a; };\n',
                        "d/b.idl": 'include "../a.idl"\nstruct B { uint8 a; };\n'}, False),
         "cycle-deep-dotdot": ({"main.idl": 'include "x/y/z.idl"\n', "x/y/z.idl": 'include "../../x/w.idl"\n', "x/w.idl": 'include "y/../y/z.idl"\n'}, False),
+        "range-in-include": ({"main.idl": 'include "limits.idl"\ninterface ISlots : ILimits { method m(); };\n',
+                              "limits.idl": 'const uint8 MAX_SLOTS = 256;\nconst int16 LOWEST = -40000;\ninterface ILimits { const uint32 VERSION = 0x1FFFFFFFF; method v(); };\n'}, False),
         "multi-include": ({"main.idl": 'include "ialpha.idl"\ninclude "ibeta.idl"\ninclude "igamma.idl"\ninclude "sub/idelta.idl"\n'
                                        'interface IAll : IAlpha { method all(in SB b, out SG g); };\n',
                            "ialpha.idl": 'interface IAlpha { method a(); };\n', "ibeta.idl": 'struct SB { uint32 v; };\ninterface IBeta { method b(in SB s); };\n',
@@ -263,7 +265,7 @@ def run(ctx, prop):
                         if crashed:
                             oracle_fail.append({"case": {"kind": "tree-" + tname, "backend": b}, "failures": [{"error": f"{prof} build crashed / did not terminate", "rc": rc, "stderr": err[-200:].decode("utf-8", "replace")}]})
                         elif valid != (rc == 0):
-                            oracle_fail.append({"case": {"kind": "tree-" + tname, "backend": b}, "failures": [{"error": f"{prof} build " + ("rejected a valid file set" if valid else "accepted a cyclic include graph"), "rc": rc}]})
+                            oracle_fail.append({"case": {"kind": "tree-" + tname, "backend": b}, "failures": [{"error": f"{prof} build " + ("rejected a valid file set" if valid else "accepted a file set that has to be refused (cyclic include graph / out-of-range constant in an included file)"), "rc": rc}]})
                         outs_.append(read_out(o_) if rc == 0 else None)
                 if valid and any(o != outs_[0] for o in outs_):
                     oracle_fail.append({"case": {"kind": "tree-" + tname, "backend": b}, "failures": [{"error": "debug and release builds (or repeated runs) wrote different bytes for the same file set"}]})
